@@ -194,16 +194,19 @@ Lemma chk_step g o r va ids sp :
   c_reuse g o (OStep r va ids) sp = true -> c_fail_closed g o (OStep r va ids) sp = true ->
   ids_ok ids (live_after o (OStep r va ids) sp) = true ->
   chk g o (OStep r va ids) sp = true.
-Proof. intros A B C D E. unfold chk. rewrite A, B, C, D. cbn [c_enumerate c_total andb]. rewrite E. reflexivity. Qed.
+Proof.
+  intros A B C D E. unfold chk. rewrite A, B, C, D. cbn [c_enumerate c_total norm_ob andb]. rewrite E.
+  destruct o; reflexivity.
+Qed.
 
 (* ---- SetClock ---- *)
 Lemma step_setclock g m t s sp :
   R g s sp -> contract_step g (SetClock t) sp = true -> step_good g m (SetClock t) s sp.
 Proof.
   intros HR HC. unfold step_good. cbn [step].
-  cbn [contract_step] in HC.
+  cbn [contract_step norm_op norm_ob] in HC.
   assert (HR1 : R g (set_now s t) (spec_step (SetClock t) (OStep (COk 0) (COk 0) (for_each_ids (set_now s t))) sp)).
-  { cbn [spec_step]. destruct HR as [R_geom0 R_nm0 R_nv0 R_to0 R_now0 R_time0 R_used0 R_hwm0 R_fl0 R_nodup0 R_id0]. constructor; cbn; try assumption; try reflexivity.
+  { cbn [spec_step norm_op norm_ob]. destruct HR as [R_geom0 R_nm0 R_nv0 R_to0 R_now0 R_time0 R_used0 R_hwm0 R_fl0 R_nodup0 R_id0]. constructor; cbn; try assumption; try reflexivity.
     rewrite R_to0. destruct R_time0 as (_ & _ & T). unfold two63 in *. lia. }
   split; [|split; [reflexivity|exact HR1]].
   apply chk_step; try reflexivity.
@@ -215,7 +218,7 @@ Lemma step_setval g m id v s sp :
   R g s sp -> contract_step g (SetVal id v) sp = true -> step_good g m (SetVal id v) s sp.
 Proof.
   intros HR HC. unfold step_good. cbn [step].
-  cbn [contract_step] in HC. apply andb_prop in HC as [HL HV].
+  cbn [contract_step norm_op norm_ob] in HC. apply andb_prop in HC as [HL HV].
   assert (Hr : 0 <= id < hwm s).
   { apply orb_prop in HL as [HL|HL]; apply memb_in in HL;
       [exact (R_live_range _ _ _ _ HR HL)|exact (R_freed_range _ _ _ _ HR HL)]. }
@@ -223,7 +226,7 @@ Proof.
   rewrite (R_n _ _ _ HR) in Hh.
   unfold set_counter_value. rewrite put_val_ok by (try apply (R_geom _ _ _ HR); lia).
   assert (HR1 : R g (set_val s id v) (spec_step (SetVal id v) (OStep (COk 0) (COk 0) (for_each_ids (set_val s id v))) sp)).
-  { cbn [spec_step]. destruct HR as [R_geom0 R_nm0 R_nv0 R_to0 R_now0 R_time0 R_used0 R_hwm0 R_fl0 R_nodup0 R_id0]. constructor; cbn; try assumption; try reflexivity.
+  { cbn [spec_step norm_op norm_ob]. destruct HR as [R_geom0 R_nm0 R_nv0 R_to0 R_now0 R_time0 R_used0 R_hwm0 R_fl0 R_nodup0 R_id0]. constructor; cbn; try assumption; try reflexivity.
     intros j. destruct (Z.eq_dec j id) as [E|E].
     - subst j. specialize (R_id0 id). unfold Rid in *. cbn. rewrite !upd_eq. cbn.
       destruct R_id0 as (A & B & C & D & E & F & G & H).
@@ -263,7 +266,7 @@ Lemma step_free g m id s sp :
   R g s sp -> contract_step g (Free id) sp = true -> step_good g m (Free id) s sp.
 Proof.
   intros HR HC. unfold step_good. cbn [step].
-  cbn [contract_step] in HC. apply memb_in in HC.
+  cbn [contract_step norm_op norm_ob] in HC. apply memb_in in HC.
   pose proof (R_live_range _ _ _ _ HR HC) as Hr. pose proof (R_hwm _ _ _ HR) as Hh.
   rewrite (R_n _ _ _ HR) in Hh. destruct (R_time _ _ _ HR) as (T1 & T2 & T3).
   rewrite free_ok by (try apply (R_geom _ _ _ HR); lia).
@@ -273,7 +276,7 @@ Proof.
   assert (HNF : ~ In id (sp_freed sp)).
   { destruct (R_id _ _ _ HR id) as (_ & _ & _ & F & _). rewrite F, HA. cs. discriminate. }
   assert (HR1 : R g s1 (spec_step (Free id) (OStep (COk 0) (COk 0) (for_each_ids s1)) sp)).
-  { cbn [spec_step]. subst s1. destruct HR as [R_geom0 R_nm0 R_nv0 R_to0 R_now0 R_time0 R_used0 R_hwm0 R_fl0 R_nodup0 R_id0]. constructor; cbn; try assumption; try reflexivity.
+  { cbn [spec_step norm_op norm_ob]. subst s1. destruct HR as [R_geom0 R_nm0 R_nv0 R_to0 R_now0 R_time0 R_used0 R_hwm0 R_fl0 R_nodup0 R_id0]. constructor; cbn; try assumption; try reflexivity.
     - rewrite R_fl0. reflexivity.
     - apply nodup_snoc; assumption.
     - intros j. destruct (Z.eq_dec j id) as [E|E].
@@ -406,7 +409,7 @@ Qed.
 Lemma step_alloc g m t ks label s sp :
   R g s sp -> contract_step g (Alloc t ks label) sp = true -> step_good g m (Alloc t ks label) s sp.
 Proof.
-  intros HR HC. unfold step_good. cbn [step]. cbn [contract_step] in HC.
+  intros HR HC. unfold step_good. cbn [step]. cbn [contract_step norm_op norm_ob] in HC.
   apply andb_prop in HC as [_ HK].
   pose proof (R_geom _ _ _ HR) as G. pose proof (R_hwm _ _ _ HR) as Hh.
   pose proof (R_n _ _ _ HR) as Hn.
@@ -417,9 +420,9 @@ Proof.
     destruct (allocate_bad_args t ks label s AB) as (e & ->).
     split; [|split; [reflexivity|exact HR]].
     apply chk_step; try reflexivity.
-    + cbn [c_fail_closed]. rewrite AB. cbn [orb andb].
+    + cbn [c_fail_closed norm_op norm_ob]. rewrite AB. cbn [orb andb].
       eapply ids_ok_live; [exact HR|]. tauto.
-    + cbn [live_after]. eapply ids_ok_live; [exact HR|]. tauto.
+    + cbn [live_after norm_op norm_ob]. eapply ids_ok_live; [exact HR|]. tauto.
   - destruct (args_good_facts _ _ AB HK) as (A1 & A2 & A3 & A4 & Hlab & Hkey).
     unfold allocate_opt. rewrite A1, A2, A3, A4. unfold bindM.
     destruct (find_split (cooled_m s) (free_list s)) as [[id rest]|] eqn:F.
@@ -436,7 +439,7 @@ Proof.
       { destruct (R_id _ _ _ HR id) as (_ & _ & _ & Fd & _). apply Fd. exact Pin. }
       assert (Hmf : memb id (sp_freed sp) = true) by (apply memb_in; exact Pin).
       assert (HR1 : R g s1 (spec_step (Alloc t ks label) (OStep (COk id) (counter_value s1 id) (for_each_ids s1)) sp)).
-      { cbn [spec_step]. rewrite Hmf.
+      { cbn [spec_step norm_op norm_ob]. rewrite Hmf.
         refine (alloc_R g s sp s' s1 id t ks label _ _ HR _ _ _ _ _ _ _ _ _ Hrec Hfr _ _ _ _ _ _ Hlab Hkey);
           try reflexivity.
         - cbn. apply upd_eq.
@@ -457,27 +460,27 @@ Proof.
         - rewrite Fnm, Fnv. cbn. lia. }
       split; [|split; [reflexivity|exact HR1]].
       apply chk_step; try reflexivity.
-      * cbn [c_unique]. replace (0 <=? id) with true by lia. replace (id <? g_n g) with true by lia.
+      * cbn [c_unique norm_op norm_ob]. replace (0 <=? id) with true by lia. replace (id <? g_n g) with true by lia.
         cbn [andb]. apply negb_true_iff. apply memb_false.
         destruct (R_id _ _ _ HR id) as (_ & _ & L & _). rewrite L, Hst. cs. discriminate.
-      * cbn [c_reuse]. rewrite Hmf, Hva. cbn [is_ok0]. rewrite andb_true_r.
+      * cbn [c_reuse norm_op norm_ob]. rewrite Hmf, Hva. cbn [is_ok0]. rewrite andb_true_r.
         rewrite <- (cooled_agree _ _ _ _ HR Pin). exact Pc.
-      * cbn [c_fail_closed]. rewrite AB. cbn [negb andb]. unfold avail.
+      * cbn [c_fail_closed norm_op norm_ob]. rewrite AB. cbn [negb andb]. unfold avail.
         apply orb_true_iff. right. apply existsb_exists. exists id. split; [exact Pin|].
         rewrite <- (cooled_agree _ _ _ _ HR Pin). exact Pc.
-      * cbn [live_after]. eapply ids_ok_live; [exact HR1|]. cbn. tauto.
+      * cbn [live_after norm_op norm_ob]. eapply ids_ok_live; [exact HR1|]. cbn. tauto.
     + destruct (Z.eq_dec (hwm s) (g_n g)) as [Efull|Efull].
       * (* no slot: error, nothing happens *)
         destruct (next_id_full s G Hfl F) as (e & ->); [lia|].
         split; [|split; [reflexivity|exact HR]].
         apply chk_step; try reflexivity.
-        -- cbn [c_fail_closed]. rewrite AB. cbn [orb]. unfold avail.
+        -- cbn [c_fail_closed norm_op norm_ob]. rewrite AB. cbn [orb]. unfold avail.
            replace (sp_used sp <? g_n g) with false by (rewrite <- (R_used _ _ _ HR); lia). cbn [orb].
            rewrite <- (existsb_ext_in (cooled_m s)).
            ++ rewrite <- (R_fl _ _ _ HR). rewrite (find_split_none _ _ F). cbn [negb andb].
               eapply ids_ok_live; [exact HR|]. tauto.
            ++ intros x Hx. apply (cooled_agree _ _ _ _ HR Hx).
-        -- cbn [live_after]. eapply ids_ok_live; [exact HR|]. tauto.
+        -- cbn [live_after norm_op norm_ob]. eapply ids_ok_live; [exact HR|]. tauto.
       * (* the slot at the high water mark is handed out *)
         rewrite (next_id_fresh s) by (auto; lia).
         set (id := hwm s). set (s' := set_hwm s (id + 1)).
@@ -493,7 +496,7 @@ Proof.
         assert (Hv0 : vals s id = 0).
         { destruct (R_id _ _ _ HR id) as (_ & _ & _ & _ & _ & _ & _ & Z0). apply Z0. exact Hst. }
         assert (HR1 : R g s1 (spec_step (Alloc t ks label) (OStep (COk id) (counter_value s1 id) (for_each_ids s1)) sp)).
-        { cbn [spec_step]. rewrite Hmf. rewrite (remove_first_notin _ _ Hnf).
+        { cbn [spec_step norm_op norm_ob]. rewrite Hmf. rewrite (remove_first_notin _ _ Hnf).
           refine (alloc_R g s sp s' s1 id t ks label _ _ HR _ _ _ _ _ _ _ _ _ Hrec Hfr _ _ _ _ _ _ Hlab Hkey);
             try reflexivity.
           - cbn. exact Hv0.
@@ -513,15 +516,15 @@ Proof.
           - rewrite Fnm, Fnv. cbn. subst id. lia. }
         split; [|split; [reflexivity|exact HR1]].
         apply chk_step; try reflexivity.
-        -- cbn [c_unique]. replace (0 <=? id) with true by (subst id; lia).
+        -- cbn [c_unique norm_op norm_ob]. replace (0 <=? id) with true by (subst id; lia).
            replace (id <? g_n g) with true by (subst id; lia).
            cbn [andb]. apply negb_true_iff. apply memb_false.
            destruct (R_id _ _ _ HR id) as (_ & _ & L & _). rewrite L, Hst. cs. discriminate.
-        -- cbn [c_reuse]. rewrite Hmf, Hva. cbn [is_ok0]. rewrite andb_true_r.
+        -- cbn [c_reuse norm_op norm_ob]. rewrite Hmf, Hva. cbn [is_ok0]. rewrite andb_true_r.
            rewrite <- (R_used _ _ _ HR). lia.
-        -- cbn [c_fail_closed]. rewrite AB. cbn [negb andb]. unfold avail.
+        -- cbn [c_fail_closed norm_op norm_ob]. rewrite AB. cbn [negb andb]. unfold avail.
            apply orb_true_iff. left. rewrite <- (R_used _ _ _ HR). lia.
-        -- cbn [live_after]. eapply ids_ok_live; [exact HR1|]. cbn. tauto.
+        -- cbn [live_after norm_op norm_ob]. eapply ids_ok_live; [exact HR1|]. cbn. tauto.
 Qed.
 
 
@@ -804,7 +807,7 @@ Lemma step_dump g m s sp : R g s sp -> step_good g m Dump s sp.
 Proof.
   intros HR. unfold step_good. cbn [step]. split; [|split; [reflexivity|exact HR]].
   unfold chk, dump_of, lookups. rewrite (for_each_spec _ _ _ HR), (iter_spec _ _ _ HR).
-  cbn [bindC shape_ok c_unique c_reuse c_fail_closed c_enumerate c_total andb].
+  cbn [bindC shape_ok c_unique c_reuse c_fail_closed c_enumerate c_total c_snapshot norm_op norm_ob andb].
   assert (EV : map entry_view (map (entry_of s) (live_ids s)) = map (view_of s) (live_ids s))
     by (rewrite map_map; reflexivity).
   rewrite EV.
@@ -824,10 +827,176 @@ Proof.
   rewrite E4, items_eqb_refl.
   assert (E5 : forallb (probe_ok g sp) (map (probe_of s) (probe_ids s)) = true).
   { apply forallb_forall. intros p Hp. apply in_map_iff in Hp as (id & <- & _). apply (probe_total _ _ _ _ HR). }
-  rewrite E5. cbn [andb].
+  rewrite E5. cbn [andb]. rewrite andb_true_r.
   apply (lookups_ok_model _ _ _ _ HR).
   - intros t reg. apply (find_spec _ _ _ _ _ HR).
   - intros id Hid. apply (in_live_ids _ _ _ _ HR). exact Hid.
+Qed.
+
+Lemma chk_clauses g o ob sp : chk g o ob sp = true ->
+  c_unique g o ob sp = true /\ c_reuse g o ob sp = true /\ c_fail_closed g o ob sp = true /\
+  c_enumerate o ob sp = true /\ c_total g o ob sp = true /\ c_snapshot o ob sp = true.
+Proof.
+  unfold chk. intros H.
+  apply andb_prop in H as [H H6]. apply andb_prop in H as [H H5]. apply andb_prop in H as [H H4]. apply andb_prop in H as [H H3].
+  apply andb_prop in H as [H H2]. apply andb_prop in H as [_ H1]. auto 10.
+Qed.
+
+(* ---- a reader that runs during the key callback of an allocation ---- *)
+Lemma get_label_ext s s1 id : nm s1 = nm s -> meta s1 id = meta s id -> get_label s1 id = get_label s id.
+Proof.
+  intros E M. unfold get_label. rewrite (meta_access_cong s s1 id OFF_LLEN 4 E).
+  destruct (meta_access s id OFF_LLEN 4) as [r| |] eqn:A; cbn [bindC]; try reflexivity.
+  apply meta_access_val in A. subst r. rewrite M.
+  destruct ((r_llen (meta s id) <? 0) || (r_llen (meta s id) >? MAXLAB)); [reflexivity|].
+  rewrite (meta_access_cong s s1 id _ _ E).
+  destruct (meta_access s id (OFF_LLEN + 4) (r_llen (meta s id))); reflexivity.
+Qed.
+
+(* for_each only depends on the slot count, the state words and the content of the allocated records *)
+Lemma for_each_from_ext s s1 : nm s1 = nm s ->
+  (forall j, r_state (meta s1 j) = r_state (meta s j)) ->
+  (forall j, r_state (meta s j) = ST_ALLOCATED -> meta s1 j = meta s j) ->
+  forall fuel i, for_each_from s1 fuel i = for_each_from s fuel i.
+Proof.
+  intros E HS HA. induction fuel as [|f IH]; intros i; cbn [for_each_from]; [reflexivity|].
+  rewrite (meta_access_cong s s1 i 0 4 E).
+  destruct (meta_access s i 0 4) as [r| |] eqn:A; cbn [bindC]; try reflexivity.
+  apply meta_access_val in A. subst r. rewrite HS.
+  destruct (r_state (meta s i) =? ST_UNUSED); [reflexivity|].
+  destruct (r_state (meta s i) =? ST_ALLOCATED) eqn:B; [|apply IH].
+  assert (M : meta s1 i = meta s i) by (apply HA; lia).
+  rewrite (meta_access_cong s s1 i 0 ML E). rewrite (get_label_ext s s1 i E M), IH, M.
+  destruct (meta_access s i 0 ML); reflexivity.
+Qed.
+
+Lemma for_each_ids_ext s s1 : nm s1 = nm s ->
+  (forall j, r_state (meta s1 j) = r_state (meta s j)) ->
+  (forall j, r_state (meta s j) = ST_ALLOCATED -> meta s1 j = meta s j) ->
+  for_each_ids s1 = for_each_ids s.
+Proof.
+  intros E HS HA. unfold for_each_ids, for_each. rewrite E, (for_each_from_ext s s1 E HS HA). reflexivity.
+Qed.
+
+Lemma write_tail_id i l s j s1 : write_tail i l s = (COk j, s1) -> j = i.
+Proof.
+  unfold write_tail, bindM, retM.
+  destruct (put_meta i OFF_LLEN _ _ s) as [[[]|e|] s2]; try discriminate.
+  destruct (put_meta i 0 4 _ s2) as [[[]|e|] s3]; try discriminate. congruence.
+Qed.
+
+(* the state in the middle of an allocation of [id0] (after next_counter_id gave s', header and key written):
+   what a reader sees there is what it saw before the allocation started *)
+Lemma mid_view g s sp s' sm id0 t k :
+  R g s sp -> meta s' = meta s -> nm s' = nm s -> nv s' = nv s ->
+  meta sm id0 = key_apply (KFunc k) (with_type_deadline (meta s' id0) t NOT_FREE) -> frame_meta s' sm id0 ->
+  0 <= id0 < g_n g -> r_state (meta s id0) <> ST_ALLOCATED ->
+  ids_ok (for_each_ids sm) (sp_live sp) = true /\ counter_state sm id0 = COk (r_state (meta s id0)).
+Proof.
+  intros HR Em Enm Env Hrec (Fm & Fv & Ffl & Fh & Fnow & Fto & Fnm & Fnv) Hid Hna.
+  assert (E : nm sm = nm s) by congruence.
+  assert (HS : forall j, r_state (meta sm j) = r_state (meta s j)).
+  { intros j. destruct (Z.eq_dec j id0) as [->|N].
+    - rewrite Hrec, Em. reflexivity.
+    - rewrite Fm by exact N. rewrite Em. reflexivity. }
+  assert (HA : forall j, r_state (meta s j) = ST_ALLOCATED -> meta sm j = meta s j).
+  { intros j Hj. assert (N : j <> id0) by (intro; subst; contradiction).
+    rewrite Fm by exact N. rewrite Em. reflexivity. }
+  split.
+  - rewrite (for_each_ids_ext s sm E HS HA). eapply ids_ok_live; [exact HR|]. tauto.
+  - rewrite counter_state_ok.
+    + rewrite HS. reflexivity.
+    + eapply geom_same; [| |exact (R_geom _ _ _ HR)]; congruence.
+    + rewrite E. replace (nv sm) with (nv s) by congruence. rewrite <- (R_n _ _ _ HR). exact Hid.
+Qed.
+
+Lemma alloc_mid_eq t ks label s id s' sm :
+  has_nul label = false -> (zlen label >? MAXLAB) = false -> key_ambiguous ks = false -> key_too_long ks = false ->
+  next_counter_id s = (COk id, s') -> write_head id t ks s' = (COk tt, sm) ->
+  alloc_mid t ks label s = (COk id, sm).
+Proof.
+  intros A1 A2 A3 A4 N W. unfold alloc_mid. rewrite A1, A2, A3, A4. unfold bindM. rewrite N, W. reflexivity.
+Qed.
+Lemma alloc_mid_err t ks label s e :
+  has_nul label = false -> (zlen label >? MAXLAB) = false -> key_ambiguous ks = false -> key_too_long ks = false ->
+  next_counter_id s = (CErr e, s) -> alloc_mid t ks label s = (CErr e, s).
+Proof.
+  intros A1 A2 A3 A4 N. unfold alloc_mid. rewrite A1, A2, A3, A4. unfold bindM. rewrite N. reflexivity.
+Qed.
+
+Lemma step_allocsnap g m t k label s sp :
+  R g s sp -> contract_step g (AllocSnap t k label) sp = true -> step_good g m (AllocSnap t k label) s sp.
+Proof.
+  intros HR HC.
+  pose proof (step_alloc g m t (KFunc k) label s sp HR HC) as SA.
+  unfold step_good in *. cbn [step] in *.
+  destruct (allocate_opt t (KFunc k) label s) as [r s1] eqn:AL.
+  destruct SA as (C & P & HR1).
+  split; [|split; [exact P|exact HR1]].
+  apply chk_clauses in C as (C1 & C2 & C3 & C4 & C5 & _).
+  match goal with |- chk g ?o ?ob sp = true =>
+    assert (Q1 : c_unique g o ob sp = true) by exact C1;
+    assert (Q2 : c_reuse g o ob sp = true) by exact C2;
+    assert (Q3 : c_fail_closed g o ob sp = true) by exact C3;
+    assert (Q4 : c_enumerate o ob sp = true) by exact C4;
+    assert (Q5 : c_total g o ob sp = true) by exact C5;
+    unfold chk; rewrite Q1, Q2, Q3, Q4, Q5
+  end.
+  cbn [shape_ok andb]. clear C1 C2 C3 C4 C5 Q1 Q2 Q3 Q4 Q5 P HR1.
+  (* the snapshot *)
+  destruct r as [id|e|]; [|reflexivity|reflexivity].
+  cbn [contract_step norm_op] in HC. apply andb_prop in HC as [_ HK].
+  pose proof (R_geom _ _ _ HR) as G. pose proof (R_hwm _ _ _ HR) as Hh. pose proof (R_n _ _ _ HR) as Hn.
+  assert (Hfl : forall x, In x (free_list s) -> 0 <= x < nm s).
+  { intros x Hx. rewrite (R_fl _ _ _ HR) in Hx. pose proof (R_freed_range _ _ _ _ HR Hx). lia. }
+  destruct (args_bad (KFunc k) label) eqn:AB.
+  { destruct (allocate_bad_args t (KFunc k) label s AB) as (e & X). congruence. }
+  destruct (args_good_facts _ _ AB HK) as (A1 & A2 & A3 & A4 & Hlab & Hkey).
+  (* the id handed out, the state next_counter_id leaves, and whether the id was a freed one *)
+  assert (MIDX : exists id0 s' sm,
+     alloc_mid t (KFunc k) label s = (COk id0, sm) /\ meta s' = meta s /\ nm s' = nm s /\ nv s' = nv s /\
+     meta sm id0 = key_apply (KFunc k) (with_type_deadline (meta s' id0) t NOT_FREE) /\ frame_meta s' sm id0 /\
+     0 <= id0 < g_n g /\
+     r_state (meta s id0) = (if memb id0 (sp_freed sp) then ST_RECLAIMED else ST_UNUSED)).
+  { destruct (find_split (cooled_m s) (free_list s)) as [[id0 rest]|] eqn:F.
+    - destruct (find_split_some _ _ _ _ F) as (Pc & Pin & Prest).
+      rewrite (R_fl _ _ _ HR) in Pin.
+      pose proof (R_freed_range _ _ _ _ HR Pin) as Hr.
+      assert (Hv : 0 <= id0 < nv s) by lia. assert (Hm : 0 <= id0 < nm s) by lia.
+      pose proof (next_id_reuse s id0 rest G Hfl F Hv) as NX.
+      assert (G' : geom (set_val (set_free_list s rest) id0 0)) by (apply geom_set_val, geom_set_free_list; exact G).
+      destruct (write_head_ok (set_val (set_free_list s rest) id0 0) id0 t (KFunc k) G' Hm Hkey) as (sm & WH & Hrec & Hfr).
+      exists id0, (set_val (set_free_list s rest) id0 0), sm.
+      split; [exact (alloc_mid_eq t (KFunc k) label s id0 _ sm A1 A2 A3 A4 NX WH)|].
+      split; [reflexivity|]. split; [reflexivity|]. split; [reflexivity|].
+      split; [exact Hrec|]. split; [exact Hfr|]. split; [lia|].
+      replace (memb id0 (sp_freed sp)) with true by (symmetry; apply memb_in; exact Pin).
+      destruct (R_id _ _ _ HR id0) as (_ & _ & _ & Fd & _). apply Fd. exact Pin.
+    - destruct (Z.eq_dec (hwm s) (g_n g)) as [Efull|Efull].
+      + exfalso. assert (Hf : hwm s = Z.min (nm s) (nv s)) by lia.
+        destruct (next_id_full s G Hfl F Hf) as (e & X).
+        rewrite allocate_opt_via_mid in AL. unfold bindM in AL.
+        rewrite (alloc_mid_err t (KFunc k) label s e A1 A2 A3 A4 X) in AL. discriminate.
+      + assert (Hf : 0 <= hwm s < Z.min (nm s) (nv s)) by lia.
+        assert (Hm : 0 <= hwm s < nm s) by lia.
+        pose proof (next_id_fresh s G Hfl F Hf) as NX.
+        assert (G' : geom (set_hwm s (hwm s + 1))) by (apply geom_set_hwm; exact G).
+        destruct (write_head_ok (set_hwm s (hwm s + 1)) (hwm s) t (KFunc k) G' Hm Hkey) as (sm & WH & Hrec & Hfr).
+        exists (hwm s), (set_hwm s (hwm s + 1)), sm.
+        split; [exact (alloc_mid_eq t (KFunc k) label s (hwm s) _ sm A1 A2 A3 A4 NX WH)|].
+        split; [reflexivity|]. split; [reflexivity|]. split; [reflexivity|].
+        split; [exact Hrec|]. split; [exact Hfr|]. split; [lia|].
+        replace (memb (hwm s) (sp_freed sp)) with false.
+        2:{ symmetry. apply memb_false. intros X. pose proof (R_freed_range _ _ _ _ HR X). lia. }
+        destruct (R_id _ _ _ HR (hwm s)) as (_ & U & _).
+        destruct (Z.eq_dec (r_state (meta s (hwm s))) ST_UNUSED) as [X|X]; [exact X|]. apply U in X. lia. }
+  destruct MIDX as (id0 & s' & sm & MID & Em & Enm & Env & Hrec & Hfr & Hid0 & Hst).
+  rewrite allocate_opt_via_mid in AL. unfold bindM in AL. rewrite MID in AL.
+  apply write_tail_id in AL. subst id. rewrite MID.
+  assert (Hna : r_state (meta s id0) <> ST_ALLOCATED).
+  { rewrite Hst. destruct (memb id0 (sp_freed sp)); cs; discriminate. }
+  destruct (mid_view g s sp s' sm id0 t k HR Em Enm Env Hrec Hfr Hid0 Hna) as (V1 & V2).
+  cbn [c_snapshot]. rewrite V1, V2, Hst. cbn [andb cres_eqb]. apply Z.eqb_refl.
 Qed.
 
 Lemma step_all g m o s sp : R g s sp -> contract_step g o sp = true -> step_good g m o s sp.
@@ -838,6 +1007,7 @@ Proof.
   - apply step_setval; assumption.
   - apply step_setclock; assumption.
   - apply step_dump; assumption.
+  - apply step_allocsnap; assumption.
 Qed.
 
 (* the property's predicate holds on every history of the model, from any state that satisfies the simulation *)
@@ -868,14 +1038,6 @@ Proof.
   rewrite (W _ _ _ H1). cbn [andb]. apply IH. exact H2.
 Qed.
 
-Lemma chk_clauses g o ob sp : chk g o ob sp = true ->
-  c_unique g o ob sp = true /\ c_reuse g o ob sp = true /\ c_fail_closed g o ob sp = true /\
-  c_enumerate o ob sp = true /\ c_total g o ob sp = true.
-Proof.
-  unfold chk. intros H.
-  apply andb_prop in H as [H H5]. apply andb_prop in H as [H H4]. apply andb_prop in H as [H H3].
-  apply andb_prop in H as [H H2]. apply andb_prop in H as [_ H1]. auto.
-Qed.
 
 (* ---- reachable states: histories inside the contract ---- *)
 Fixpoint in_contract (g : cfg) (ops : list op) (obs : list obs) (sp : spec) : bool :=
@@ -995,6 +1157,10 @@ Proof. apply (clause_holds (fun _ => c_enumerate)). intros g o ob sp C. apply ch
 Lemma holds_total : forall m nm nv timeout ops, let g := mkcfg nm nv timeout in
   cfg_ok g = true -> holds_with g (c_total g) ops (run m ops (mgr0 nm nv timeout)) spec0 = true.
 Proof. apply (clause_holds c_total). intros g o ob sp C. apply chk_clauses in C. tauto. Qed.
+
+Lemma holds_snapshot : forall m nm nv timeout ops, let g := mkcfg nm nv timeout in
+  cfg_ok g = true -> holds_with g c_snapshot ops (run m ops (mgr0 nm nv timeout)) spec0 = true.
+Proof. apply (clause_holds (fun _ => c_snapshot)). intros g o ob sp C. apply chk_clauses in C. tauto. Qed.
 
 Lemma no_panic_in_contract : forall m nm nv timeout ops, let g := mkcfg nm nv timeout in let s0 := mgr0 nm nv timeout in
   cfg_ok g = true -> in_contract g ops (run m ops s0) spec0 = true ->
